@@ -236,7 +236,8 @@ def run_prefix(ctx: Ctx) -> RuleResult:
             if isinstance(n, ast.Call) and norm(n.func) == 'self._add_rule' and len(n.args) >= 2:
                 nm = n.args[1]
                 defs = [x.value for x in m.body_nodes() if isinstance(x, ast.Assign) and norm(x.targets[0]) == norm(nm)]
-                ok = bool(defs) and all(isinstance(d, ast.Call) and norm(d.func) == 'self._name_rule' for d in defs)
+                ok = (bool(defs) and all(isinstance(d, ast.Call) and norm(d.func) == 'self._name_rule' for d in defs)) or \
+                    (isinstance(nm, ast.Call) and norm(nm.func) == 'self._name_rule')
                 res.ob('%s %s' % (m.loc(n), m.qual), 'generated rule name comes from _name_rule', ok)
                 if not ok:
                     res.finding(m, n, 'a helper rule is added under a name that does not come from _name_rule', construct='prefix:add-rule')
